@@ -148,7 +148,26 @@ def run(prop, raw, rule_fn, baseline_check, seed, budget):
         cands.extend((m, i) for m in candidates(raw["fns"][i], p))
     rnd = random.Random(seed * 7919 + sum(map(ord, prop)))
     rnd.shuffle(cands)
-    chosen = cands[:budget]
+    # three quarters of the budget go to edits within 3 lines of a site some obligation was recorded at (the code the
+    # rules actually talk about), the rest to edits anywhere in the analysed functions
+    sites = {}
+    for o in baseline_check.obls:
+        loc = o.get("loc") or ""
+        if ":" in loc:
+            fpath, _, ln = loc.rpartition(":")
+            try:
+                sites.setdefault(fpath, set()).add(int(ln.split("-")[0]))
+            except ValueError:
+                pass
+    def near(item):
+        m, i = item
+        d = describe(m, raw["fns"][i])
+        return any(abs(d["line"] - l) <= 3 for l in sites.get(d["file"], ()))
+    near_c = [c for c in cands if near(c)]
+    far_c = [c for c in cands if not near(c)]
+    n_near = min(len(near_c), budget * 3 // 4)
+    chosen = near_c[:n_near] + far_c[:budget - n_near]
+    near_set = {id(c) for c in near_c[:n_near]}
     tried = killed = 0
     survivors, kills = [], []
     global _G
@@ -164,11 +183,18 @@ def run(prop, raw, rule_fn, baseline_check, seed, budget):
     else:
         _G = (prop, raw, rule_fn, seed)
         results = [_one(x) for x in chosen]
-    for (m, i), fails in zip(chosen, results):
+    near_tried = near_killed = 0
+    for item, fails in zip(chosen, results):
+        (m, i) = item
         orig = raw["fns"][i]
         tried += 1
         new = set(fails) - base_fail
         d = describe(m, orig)
+        is_near = id(item) in near_set
+        d["near_obligation_site"] = is_near
+        near_tried += 1 if is_near else 0
+        if new and is_near:
+            near_killed += 1
         if new:
             killed += 1
             if len(kills) < 6:
@@ -177,4 +203,7 @@ def run(prop, raw, rule_fn, baseline_check, seed, budget):
         else:
             if len(survivors) < 25:
                 survivors.append(d)
-    return {"candidates": len(cands), "tried": tried, "killed": killed, "kills_sample": kills, "survivors_sample": survivors}
+    return {"candidates": len(cands), "candidates_near_obligation_sites": len(near_c), "tried": tried, "killed": killed,
+            "tried_near_sites": near_tried, "killed_near_sites": near_killed,
+            "tried_elsewhere": tried - near_tried, "killed_elsewhere": killed - near_killed,
+            "kills_sample": kills, "survivors_sample": survivors}
